@@ -23,6 +23,7 @@ mod c15;
 mod c16;
 mod c17;
 mod c18;
+mod c19;
 mod bdl;
 mod c20;
 
@@ -43,6 +44,8 @@ fn main() {
                 c13::worker(sp, idx)
             } else if sp.starts_with("c14") {
                 c14::worker(sp, idx)
+            } else if sp.starts_with("c19") {
+                c19::worker(sp, idx)
             } else {
                 serde_json::json!({"verdict": "unknown-space"})
             }
@@ -68,6 +71,7 @@ fn main() {
         ("C16", c16::run),
         ("C17", c17::run),
         ("C18", c18::run),
+        ("C19", c19::run),
         ("C20", c20::run),
     ];
     let code = match checks.iter().find(|c| c.0 == id) {
